@@ -128,6 +128,12 @@ func (g *fgen) resolveType(ct *ctype, pkg *types.Package) (types.Type, error) {
 			return nil, err
 		}
 		return &setType{t}, nil
+	case "seq":
+		t, err := g.resolveType(ct.elem, pkg)
+		if err != nil {
+			return nil, err
+		}
+		return &seqType{t}, nil
 	case "name":
 		name := ct.name
 		if name == "ref" || name == "mathint" {
@@ -440,6 +446,8 @@ func (e *cenv) index(x *cIndex) val {
 		}
 	case *setType:
 		return val{fmt.Sprintf("(select %s %s)", b.t, i.t), tBool, "Bool"}
+	case *seqType:
+		return val{fmt.Sprintf("(select %s %s)", b.t, i.t), u.elem, g.sortOf(u.elem)}
 	case *types.Pointer:
 		if a, ok := u.Elem().Underlying().(*types.Array); ok {
 			l := &loc{root: rootElem, rootT: g.elemKeyName(a.Elem()), base: b.t, idx: i.t, typ: a.Elem()}
@@ -858,6 +866,16 @@ func (e *cenv) call(x *cCall) val {
 	case "off":
 		v := e.tr(x.args[0])
 		return val{fmt.Sprintf("(s_off %s)", v.t), tInt, "Int"}
+	case "elemptr":
+		// elemptr(s, i): the pointer &s[i], as the term the code uses for it
+		sv := e.tr(x.args[0])
+		iv := e.tr(x.args[1])
+		st, ok := sv.typ.Underlying().(*types.Slice)
+		if !ok {
+			e.fail("elemptr needs a slice")
+		}
+		l := g.elemLoc(sv, iv.t)
+		return val{g.interiorPtr(l), types.NewPointer(st.Elem()), "Int"}
 	case "has":
 		m := e.tr(x.args[0])
 		k := e.tr(x.args[1])
